@@ -296,7 +296,7 @@ Proof.
   { unfold within in *. cbn [fst snd] in *. lia. }
   { lia. }
   exists st', new. split; [rewrite Hd; exact Hdb|]. split.
-  { unfold step_post. rewrite Ha, len2, len_nil. repeat split; try assumption. lia. }
+  { unfold step_post. rewrite Ha, len2, len_nil. split; [exact Hfl|]. split; [exact HR'|]. split; [exact Hx|]. split; [exact Hc|]. split; [lia|exact Hfr]. }
   exists bs, [(a, 16); (p, ns)]. split.
   { rewrite Hr. cbn [rd_f]. rewrite L1. cbn [bind]. rewrite L2. cbn [bind]. rewrite L3. reflexivity. }
   intros r [<-|[<-|[]]].
